@@ -35,18 +35,54 @@ def sample_params_wide(name, rng):
     return par
 
 
-def quad_degenerate(name, par):
-    """TODO(candidate genuine defect, reported; keep this region out of the round-trip oracle until it is decided): the quadratic-formula
-    inverses divide by the leading coefficient of the quadratic, which vanishes for BET when C -> N, for GAB when C -> 1 and for Quadratic
-    when Kb << Ka^2 (the equation becomes linear); the error of `pressure` grows like 1/|coefficient| (measured on the unchanged tree, 6000
-    vectors per model: 1e-5 of the pressure range at a relative distance of 5e-3, 2e-4 at 1e-4).  Ten times that distance is excluded."""
+QUAD_DEGENERATE = {"BET", "GAB", "Quadratic"}
+
+
+def quad_degenerate_params(name, par, rng):
+    """The parameter region in which the leading coefficient of the quadratic solved by `pressure` vanishes or nearly vanishes -- BET with
+    C = N or C -> N, GAB with C = 1 or C -> 1, Quadratic with Kb = 0 or Kb << Ka^2 -- all inside the declared bounds (findings S51-C10b:
+    the textbook form of the root divided by that coefficient; repaired, Props/C10/Findings.lean `textbook_degenerate`,
+    Lemmas/Quad.lean `stable_minus_linear`).  Exactly degenerate in 1 of 4 draws, else at a relative distance 1e-16 ... 1e-2 on either side."""
+    par = dict(par)
+    exact = rng.random() < 0.25
+    eps = 0.0 if exact else logu(rng, 1e-16, 1e-2) * rng.choice([-1.0, 1.0])
     if name == "BET":
-        return abs(par["N"] - par["C"]) < 0.05 * max(par["N"], par["C"])
-    if name == "GAB":
-        return abs(par["C"] - 1) < 0.05
-    if name == "Quadratic":
-        return abs(par["Kb"]) < 1e-7 * par["Ka"] ** 2
-    return False
+        par["C"] = par["N"] * (1 + eps)
+    elif name == "GAB":
+        par["C"] = 1 + eps
+    elif name == "Quadratic":
+        par["Kb"] = 0.0 if exact else par["Ka"] ** 2 * logu(rng, 1e-30, 1e-6)
+    return par
+
+
+def henry_probe_of(name, par):
+    """`models.henry_probe`, also for the degenerate member Quadratic with Kb = 0 (Langmuir's model: first correction Ka p)."""
+    if name == "Quadratic" and par["Kb"] == 0:
+        return 1e-10 / par["Ka"]
+    return henry_probe(name, par)
+
+
+def quad_inverse_condition(name, par, p):
+    """|d ln p / d ln n| of the inverse of BET / GAB / Quadratic / DSLangmuir at the pressure p, EXACT (rational arithmetic on the doubles:
+    near saturation the terms cancel): the factor by which `pressure` must amplify a relative error of the loading it is given, whatever
+    the implementation.  ~1 at low coverage, -> infinity towards saturation (DSLangmuir, Quadratic), < 1 towards the BET / GAB pole."""
+    from fractions import Fraction as Fr
+    q = {k: Fr(float(v)) for k, v in par.items()}
+    p = Fr(float(p))
+    if name == "BET":
+        d = 1 + q["N"] * p / (1 - q["N"] * p) - p * (q["C"] - q["N"]) / (1 - q["N"] * p + q["C"] * p)
+    elif name == "GAB":
+        u = q["K"] * p
+        d = 1 + u / (1 - u) - u * (q["C"] - 1) / (1 - u + q["C"] * u)
+    elif name == "Quadratic":
+        d = 1 + 2 * q["Kb"] * p / (q["Ka"] + 2 * q["Kb"] * p) - (q["Ka"] * p + 2 * q["Kb"] * p * p) / (1 + q["Ka"] * p + q["Kb"] * p * p)
+    elif name == "DSLangmuir":
+        n = q["n_m1"] * q["K1"] * p / (1 + q["K1"] * p) + q["n_m2"] * q["K2"] * p / (1 + q["K2"] * p)
+        dn = q["n_m1"] * q["K1"] / (1 + q["K1"] * p) ** 2 + q["n_m2"] * q["K2"] / (1 + q["K2"] * p) ** 2
+        d = p * dn / n
+    else:
+        raise KeyError(name)
+    return float(1 / d) if d > 0 else float("inf")
 
 
 def dubinin_condition(name, par, p, n):
